@@ -80,6 +80,7 @@ func run(r *mon.Report, tier string, idx int, rng *rand.Rand) {
 	cfg.Pod.PPreferred = 0
 	cfg.Pod.PGPU = 0.2
 	cfg.MaxDaemons = 2
+	cfg.SelectiveDaemons = true
 	cfg.Catalog.Reserved = false
 	s := common.Build(rng, cfg)
 	e := s.Env
@@ -407,7 +408,7 @@ var _ = gen.Q
 func init() {
 	reg.Register(&reg.Prop{
 		ID: "C04", Level: "exploration",
-		Rule: "each case = generated world + batch of 1-10 pods without inter-pod constraints or preferences (some requesting an extended resource; some pools with startup taints), provisioned by the real provisioner and left pending while every created NodeClaim advances at its own PRNG-chosen pace through created/launched/node-appeared/registered/initialized (real lifecycle controller, kubelet actor with not-ready taints and zeroed extended resources, hostile provider launch choice); after every step provisioning is re-run (3-8 passes). While any claim is unlaunched the real Provisioner.Reconcile must not reach a scheduling pass; otherwise every pod on a new NodeClaim must be inadmissible (independent oracle, provider ground truth) on every active existing node with that node's final load. Non-trivial = a pass in which existing/in-flight nodes were present and judged; distinct by (pass number, set of lifecycle stages present, whether new capacity was opened).",
+		Rule:  "each case = generated world + batch of 1-10 pods without inter-pod constraints or preferences (some requesting an extended resource; some pools with startup taints), provisioned by the real provisioner and left pending while every created NodeClaim advances at its own PRNG-chosen pace through created/launched/node-appeared/registered/initialized (real lifecycle controller, kubelet actor with not-ready taints and zeroed extended resources, hostile provider launch choice); after every step provisioning is re-run (3-8 passes). While any claim is unlaunched the real Provisioner.Reconcile must not reach a scheduling pass; otherwise every pod on a new NodeClaim must be inadmissible (independent oracle, provider ground truth) on every active existing node with that node's final load. Non-trivial = a pass in which existing/in-flight nodes were present and judged; distinct by (pass number, set of lifecycle stages present, whether new capacity was opened).",
 		Cases: cases, Run: run,
 		MinObserved: map[string]int{"repeat_passes": 200, "existing_node_admission_judgements": 50, "gate_checks": 50},
 	})
